@@ -437,7 +437,7 @@ func (o *C08) AfterBegin(w *World) { o.seqCheck(w) }
 // Finish: after the last fault every validator polled, signed and relayed for several rounds (Gen.Drain):
 // the hub must have caught up with the external chains.
 func (o *C08) Finish(w *World) {
-	if !w.Settled {
+	if !w.Settled || w.Tainted {
 		return
 	}
 	st := w.ReadState()
